@@ -22,16 +22,17 @@ pub fn gen_net(rng: &mut Rng, in_dim: usize, rg: Regime, allow_head: bool) -> (V
     let mut layers = Vec::new();
     let mut dim = in_dim;
     let mut neurons = 0usize;
-    let nl = 1 + rng.below(3);
+    let nl = 1 + rng.below(if rng.big { 4 } else { 3 });
+    let cap = if rng.big { 9 } else { 7 };
     for li in 0..nl {
-        let w = 1 + rng.below(3);
+        let w = 1 + rng.below(if rng.big { 4 } else { 3 });
         layers.push(L::Linear(gen::aff(rng, w, dim, rg)));
         dim = w;
         if li + 1 == nl && rng.chance(0.3) {
             break; // plain linear output layer
         }
         for i in 0..w {
-            if neurons >= 7 {
+            if neurons >= cap {
                 break;
             }
             let l = match rng.below(10) {
@@ -139,6 +140,7 @@ fn run_shipped(case: u64, rng: &mut Rng, ev: &mut Ev) {
 
 pub fn run_case(ctx: &Ctx, case: u64, ev: &mut Ev) {
     let mut rng = Rng::derive(ctx.seed, "C01", case);
+    rng.big = ctx.tier == crate::Tier::Thorough && rng.chance(0.2);
     if case % 2500 == 1249 {
         run_shipped(case, &mut rng, ev);
         return;
